@@ -379,6 +379,7 @@ class Analysis:
         self.visited_fns = set()
         self.events = defaultdict(list)   # fn -> [(block, kind, payload)]  e.g. need-more returns for C04
         self._rooted_stack = []
+        self._site_stack = []
         self.view_of = {}                      # slice object -> (parent object, start, end) for range-indexed views
         self.copies = defaultdict(list)        # fn -> [(block, destination object, source object)] of copy_from_slice
         self.watch = defaultdict(list)         # fn -> [(block, callee name, [argument objects])] for calls named in WATCH
@@ -606,6 +607,7 @@ class Analysis:
             return self.exec_switch(body, blk, t, st)
         if k == "call":
             self.exec_call(body, blk, t, st, ctx, depth)
+            self._opaque_bool_result(body, blk, t, st)
             if t["t"] is None:
                 return []
             return [(t["t"], st)]
@@ -631,9 +633,9 @@ class Analysis:
             if self._arg_rooted(body, p[0]):
                 self._state_written(st)
             # a store into *p: path facts about discriminants of that place die
-            rep = _place_repr(p)
-            for key in [kx for kx in st.path if kx[0] == "d" and (kx[1] == rep or kx[1].startswith(rep) or rep.startswith(kx[1]))]:
-                st.path.pop(key)
+            for rep in {_place_repr(p), self.canon_rep(st, body, p)}:
+                for key in [kx for kx in st.path if kx[0] == "d" and isinstance(kx[1], str) and (kx[1].lstrip("^") == rep or kx[1].lstrip("^").startswith(rep) or rep.startswith(kx[1].lstrip("^")))]:
+                    st.path.pop(key)
             if k == "use":
                 v = self.eval_op(st, body, rv["op"])
                 if v is not None:
@@ -672,7 +674,12 @@ class Analysis:
                 if dkey not in st.obj and is_buf_ty(ty) and not ty.startswith("std::option") and not ty.startswith("std::result"):
                     o = self.obj_at(st, body, sp_, create=True)
                     st.obj[dkey] = o
-                if sp_[1] and dkey not in st.fact and dkey not in st.int and dkey not in st.obj and ty not in UNSIGNED and ty != "bool":
+                if sp_[1] and dkey not in st.obj and not is_buf_ty(ty) and ty not in UNSIGNED and ty != "bool" and not ty.startswith("&"):
+                    # ... and its discriminant is the discriminant of that place (same identity in every helper it is handed to by value)
+                    o_src = self.obj_at(st, body, sp_, create=False)
+                    if o_src is not None:
+                        st.obj[dkey] = o_src
+                if sp_[1] and dkey not in st.fact and dkey not in st.int and (dkey not in st.obj or not is_buf_ty(ty)) and ty not in UNSIGNED and ty != "bool":
                     # an opaque Copy value (cipher kind, mode ...): remember where it was read from, so that pure functions of it agree
                     root = st.fact.get((sp_[0], ()))
                     base = root[1] if root and root[0] == "id" else f"{fn}:_{sp_[0]}"
@@ -960,8 +967,12 @@ class Analysis:
                 st.path[f[1]] = (truth != neg)
         elif f[0] == "discr":
             place = f[1]
-            rep = _place_repr(place)
+            rep = self.canon_rep(st, body, place)
             nv = self.n_variants(self.place_type(body, place))
+            # a branch that contradicts what is already known about this very value (here or in an inlining caller) is not taken
+            if self._discr_contradicts(st, rep, v, listed, nv):
+                st.misc["infeasible"] = True
+                return
             pk0 = pkey(place)
             pty = self.place_type(body, place) or ""
             is_opt = "Option<" in pty.split("<")[0] + "<"
@@ -1520,6 +1531,50 @@ class Analysis:
                 return True
         return False
 
+    def _opaque_bool_result(self, body, blk, t, st):
+        """a boolean a call returns and about which nothing is known gets ONE 0/1 symbol at its definition; copies, struct fields and helper
+        parameters carry that symbol, so a length computed under `if flag {16} else {0}` in one helper and consumed under `if flag` in
+        another are correlated. The symbol is named by function, block and inlining call-site chain."""
+        d = t["dest"]
+        if d[1] or body.local_ty(d[0]) != "bool":
+            return
+        dk = pkey(d)
+        if dk in st.int or dk in st.fact:
+            return
+        key = ("b", f"{short(body.defp)}@{blk}#{'/'.join(self._site_stack)}", "call")
+        name = ind(key)
+        IND_KEYS[name] = key
+        st.path.pop(key, None)          # a new value (loop iteration): what was known about the previous one does not carry over
+        sym = Lin.sym(name)
+        st.int[dk] = sym
+        st.add_con(Lin(1).sub(sym))
+
+    def canon_rep(self, st, body, place):
+        """identity of the value a discriminant is read from. Below a tracked object (an argument, something reached through one, or a
+        by-value copy taken from such a place) it is the object's id — the same string in a caller and in every helper the value is handed
+        to; otherwise the body-local spelling of the place."""
+        o = self.obj_at(st, body, place, create=False)
+        if o is not None:
+            return "@" + o
+        return _place_repr(place)
+
+    @staticmethod
+    def _discr_contradicts(st, rep, v, listed, nv):
+        def known(val):
+            for r_ in (rep, "^" + rep):
+                if nv == 2 and val in (0, 1):
+                    k0 = ("d", r_, 0, 2)
+                    if k0 in st.path:
+                        return st.path[k0] if val == 0 else (not st.path[k0])
+                else:
+                    k_ = ("d", r_, val, nv)
+                    if k_ in st.path:
+                        return st.path[k_]
+            return None
+        if v is not None:
+            return known(v) is False
+        return any(known(lv) is True for lv in listed)
+
     def _ref_root(self, body, p):
         """textual root of a reference operand (`&(*_2).kind` -> '(*_2).kind')"""
         if p[1]:
@@ -1571,10 +1626,12 @@ class Analysis:
             if p is not None and self._arg_rooted(body, p[0]):
                 rooted.add(i + 1)
         self._rooted_stack.append(rooted)
+        self._site_stack.append(f"{short(body.defp)}:{blk}")
         try:
             rr = self.run(callee, cs, ctx + [callee.defp], depth + 1, want_groups=True)
         finally:
             self._rooted_stack.pop()
+            self._site_stack.pop()
         dkey = pkey(t["dest"])
         if rr is None:
             return "diverges"
@@ -1641,6 +1698,11 @@ class Analysis:
                 else:
                     ids = None
                     break
+            def _stable(sym_):
+                # symbols that mean the same thing wherever they appear: branch indicators, const generics, canonical pure-function values
+                return sym_.startswith("[") or sym_.startswith("param:") or ("(" in sym_ and "@" not in sym_.split("(")[0] and not sym_.startswith("len("))
+            if ids is not None and not st.int[dkey].is_const() and len(st.int[dkey].t) > 1 and all(_stable(sy) for sy in st.int[dkey].t):
+                ids = None      # the inlining computed the value as an expression over stable symbols: more informative than an opaque name
             if ids is not None:
                 canon = Lin.sym(f"{short(callee.defp)}({', '.join(ids)})")
                 got = st.int[dkey]
